@@ -1037,3 +1037,46 @@ Proof.
     rewrite flush_pos. replace (c_pos (obj_loop 0 members s0) - 0) with (c_pos (obj_loop 0 members s0)) in A by lia. rewrite A.
     rewrite add_all_frame. cbn [frame_val f_obj f_kids]. rewrite app_nil_r, rev_involutive, map_obj_kids. reflexivity.
 Qed.
+
+(* ------------------------------------------------------------------ producers of the model
+   Every tree / buffer the model can derive from one value: jbn_clone of a tree, decoding of a buffer (jbl_to_node; the
+   model has one decoder for both clone_strings settings: a jval carries no storage), re-encoding of such a tree
+   (jbl_from_node / jbl_fill_from_node), jbl_clone, jbl_clone_into_pool - in any order, any number of times. *)
+Inductive tree_of (v : jval) (bs : list Z) : jval -> Prop :=
+  | TP_self : tree_of v bs v
+  | TP_clone : forall t, tree_of v bs t -> tree_of v bs (jbn_clone t)
+  | TP_decode : forall b t, bin_of v bs b -> binn_decode b = Some t -> tree_of v bs t
+with bin_of (v : jval) (bs : list Z) : list Z -> Prop :=
+  | BP_self : bin_of v bs bs
+  | BP_clone : forall b b', bin_of v bs b -> binn_clone b = Some b' -> bin_of v bs b'
+  | BP_clonep : forall b b', bin_of v bs b -> binn_clone_into_pool b = Some b' -> bin_of v bs b'
+  | BP_encode : forall t b, tree_of v bs t -> binn_encode t = Some b -> bin_of v bs b.
+
+Scheme tree_of_mind := Minimality for tree_of Sort Prop
+  with bin_of_mind := Minimality for bin_of Sort Prop.
+Combined Scheme producers_mind from tree_of_mind, bin_of_mind.
+
+Lemma producers_same : forall v bs, wf v = true -> binn_encode v = Some bs ->
+  (forall t, tree_of v bs t -> t = v) /\ (forall b, bin_of v bs b -> b = bs).
+Proof.
+  intros v bs Hw He.
+  destruct (binn_clone_same v bs He) as [Hc Hp].
+  apply (producers_mind v bs (fun t => t = v) (fun b => b = bs)).
+  - reflexivity.
+  - intros t _ IH. subst t. apply jbn_clone_equal.
+  - intros b t _ IH Hd. subst b. rewrite (binn_roundtrip v bs Hw He) in Hd. injection Hd as Hd. symmetry. exact Hd.
+  - reflexivity.
+  - intros b b' _ IH Hcl. subst b. rewrite Hc in Hcl. injection Hcl as Hcl. symmetry. exact Hcl.
+  - intros b b' _ IH Hcl. subst b. rewrite Hp in Hcl. injection Hcl as Hcl. symmetry. exact Hcl.
+  - intros t b _ IH Hen. subst t. rewrite He in Hen. injection Hen as Hen. symmetry. exact Hen.
+Qed.
+
+Theorem at_producer_independent : forall v bs t b path ptr, wf v = true -> binn_encode v = Some bs ->
+  tree_of v bs t -> bin_of v bs b ->
+  at_tree t path = at_tree v path /\ at_tree2 t ptr = at_tree2 v ptr /\
+  at_binn b path = at_binn bs path /\ at_binn2 b ptr = at_binn2 bs ptr.
+Proof.
+  intros v bs t b path ptr Hw He Ht Hb.
+  destruct (producers_same v bs Hw He) as [A B].
+  rewrite (A t Ht), (B b Hb). repeat split; reflexivity.
+Qed.
